@@ -333,6 +333,9 @@ class Generator:
                 elif d == "@derive_ord":
                     self.do_derive_ord(arg, rel, i + 1)
                     i += 1
+                elif d == "@implset":
+                    self.do_implset(arg, rel, i + 1)
+                    i += 1
                 elif d == "@close":
                     if not self.open_container:
                         raise GenError(f"{rel}:{i+1}: @close without @open")
@@ -835,6 +838,25 @@ class Generator:
         self.em.emit(txt, {"kind": "gen", "item": f"derive_ord {name}"})
         self.assumptions.append({"kind": "derive-semantics", "name": f"#[derive(PartialOrd, Ord)] on {name} compares fields lexicographically in declaration order",
                                  "where": f"{rel}:{lno}"})
+
+    def do_implset(self, arg, rel, lno):
+        """@implset <file> | <impl header> | <fn> <fn> ...: the trait impl must define exactly these methods.  A trait impl that
+        starts overriding a PROVIDED method (Iterator::nth, PartialEq::ne, PartialOrd::lt, Ord::max, ...) changes behaviour
+        the property speaks about without touching any function under contract -- the contracts on `next`, `eq`, `cmp`
+        would keep verifying.  Such a change is outside what the contracts decide: undecided (exit 2), never a pass."""
+        parts = [q.strip() for q in arg.split("|")]
+        fspec, container, allowed = parts[0], parts[1], set(parts[2].split())
+        src = SourceIndex.load(fspec)
+        conts = src.find_container(container)
+        if len(conts) != 1:
+            raise GenError(f"{rel}:{lno}: anchor lost: {container} in {fspec}: {len(conts)} matches")
+        have = {f["name"] for f in conts[0]["items"] if f["kind"] == "fn"}
+        extra, gone = sorted(have - allowed), sorted(allowed - have)
+        if extra:
+            raise GenError(f"{rel}:{lno}: `{container}` now also defines {extra}: an override of a provided trait method is not under contract "
+                           f"(the verified method(s) {sorted(allowed)} no longer determine what callers of the trait observe)")
+        if gone:
+            raise GenError(f"{rel}:{lno}: anchor lost: `{container}` no longer defines {gone}")
 
     def do_open(self, arg, rel, lno):
         parts = [p.strip() for p in arg.split("|")]
